@@ -502,7 +502,19 @@ def impl_parse(lines, use_file):
 
     try:
         with core.watchdog(TIMEOUT):
-            prog = read_program(io.StringIO("".join(lines)) if use_file else list(lines))
+            # an iterable of lines: a text file, a list, a tuple, a generator — chosen by the content, so a replay repeats it
+            shape = sum(len(x) for x in lines) % 4
+            if use_file:
+                src = io.StringIO("".join(lines))
+            elif shape == 1:
+                src = tuple(lines)
+            elif shape == 2:
+                src = (ln for ln in list(lines))
+            elif shape == 3:
+                src = iter(list(lines))
+            else:
+                src = list(lines)
+            prog = read_program(src)
         return {"ok": [[list(p.sources), p.destination, p.name, p.line] for p in prog]}
     except CodeError as e:
         return err_json(e)
@@ -582,7 +594,9 @@ def impl_compile(prog, isa_items):
     canon = [[list(i.sources), i.destination, i.name, i.line] for i in p]
     try:
         with core.watchdog(TIMEOUT):
-            hw = compile_program(p, dict((k, v) for k, v in isa_items))
+            shape = (len(p) + len(isa_items)) % 3       # a list, a tuple or a one-shot generator of instructions
+            arg = tuple(p) if shape == 1 else ((i for i in p) if shape == 2 else p)
+            hw = compile_program(arg, dict((k, v) for k, v in isa_items))
         out = {"ok": [[list(h.sources), h.destination, h.categ] for h in hw]}
     except UndefElemError as e:
         out = err_json(e)
@@ -631,14 +645,14 @@ def eval_isa(inp):
 
 def gen_isa_case(rng):
     ncap = rng.randint(0, 4)
-    base = rng.sample(["ALU", "MEM", "BR", "FPU", "div 2", "x"], ncap)
+    base = rng.sample(["ALU", "MEM", "BR", "FPU", "div 2", "x", "", "0"], ncap)      # "" and "0": legal, falsy-looking names
     caps = ["".join(c.swapcase() if rng.random() < 0.3 else c for c in b) for b in base]
     as_set = rng.random() < 0.7
     if not as_set and caps and rng.random() < 0.5:
         caps.insert(rng.randint(0, len(caps)), rng.choice(caps).swapcase())       # a list with a case-duplicate
     n = rng.choice([0, 1, 2]) if rng.random() < 0.2 else rng.randint(0, 8)
     isa = []
-    pool = rng.sample(ISA_MN, min(len(ISA_MN), n + 2))
+    pool = rng.sample(ISA_MN + ["", "0"], min(len(ISA_MN), n + 2))
     # mnemonics and capabilities live in different name spaces: let them overlap now and then (a mnemonic spelled like an
     # offered capability, a capability spelled like a mnemonic of the table)
     overlap = rng.random() < 0.25
